@@ -203,6 +203,7 @@ type checker struct {
 	spec   *ukit.Spec
 	only   *replay
 	orders bool // explore map iteration orders (set while the constructor-built instance runs)
+	tier   string
 }
 
 func (c *checker) fail(sig, detail, path string, i int, v any) {
@@ -225,7 +226,7 @@ func (c *checker) guard(path string, i int, v any, f func()) {
 		}
 		return
 	}
-	e := &mcrt.Explorer{MaxPreempt: 0, MaxDelay: -1, MaxDeviate: 1, MaxSteps: 1 << 20, Body: f, Check: func(r *mcrt.Result) bool {
+	e := &mcrt.Explorer{Embedded: true, MaxPreempt: 0, MaxDelay: -1, MaxDeviate: 1, MaxSteps: 1 << 20, Body: f, Check: func(r *mcrt.Result) bool {
 		c.res.Transitions++
 		if r.Status == mcrt.StPanic {
 			c.fail(fmt.Sprintf("panic in %s: %s", lib.PanicSite(r.PanicStack), lib.PanicClass(r.PanicValue)), fmt.Sprintf("%s(%s) panicked: %v", path, ukit.Show(v), r.PanicValue), path, i, v)
@@ -239,8 +240,24 @@ func (c *checker) guard(path string, i int, v any, f func()) {
 	}
 }
 
+// small: no object of the spec has more than four properties (the iteration-order menu is complete - all
+// permutations - up to four keys; beyond that it is a sample of n+1 orders, and the quick tier leaves those to the
+// thorough tier).
+func small(spec *ukit.Spec) bool {
+	ok := true
+	spec.Walk(func(n *ukit.Spec) {
+		if n.Kind == ukit.KObject && len(n.Props) > 4 {
+			ok = false
+		}
+	})
+	return ok
+}
+
 func (c *checker) run(sch schema.Type, inputs []any, what string) {
 	spec := c.spec
+	if c.orders && c.tier != "thorough" && !small(spec) {
+		c.orders = false
+	}
 	var natives []any
 	for i, raw := range inputs {
 		want, denoted := ukit.Denote(spec, raw)
@@ -349,7 +366,9 @@ func main() {
 				}
 				out = append(out, batch{"objects", lo, hi})
 			}
-			out = append(out, batch{"oneof", 0, len(oneOfSpecs())})
+			for i := range oneOfSpecs() {
+				out = append(out, batch{"oneof", i, i + 1})
+			}
 			return out
 		},
 		Run: func(tier string, raw json.RawMessage, from int, deadline time.Time) ux.Result {
@@ -357,7 +376,7 @@ func main() {
 			_ = json.Unmarshal(raw, &b)
 			var res ux.Result
 			if b.Kind == "oneof" {
-				for _, spec := range oneOfSpecs() {
+				for _, spec := range oneOfSpecs()[b.Lo:b.Hi] {
 					var sch schema.Type
 					pan, _, _ := ukit.Call(func() { sch = ukit.Build(spec) })
 					if pan {
@@ -368,7 +387,7 @@ func main() {
 							ukit.Link(n)
 						}
 					})
-					c := &checker{res: &res, spec: spec}
+					c := &checker{res: &res, spec: spec, tier: tier}
 					c.orders = true
 					c.run(sch, ukit.RawValues(spec), "one-of")
 					res.Nontrivial++
@@ -377,7 +396,9 @@ func main() {
 						c.run(l, ukit.RawValues(spec), "one-of loaded from its description")
 					}
 				}
-				res.Samples = append(res.Samples, map[string]any{"one_of": oneOfSpecs()[1].String()})
+				if b.Lo == 1 {
+					res.Samples = append(res.Samples, map[string]any{"one_of": oneOfSpecs()[1].String()})
+				}
 				return res
 			}
 			objs := objects(tier)
@@ -394,7 +415,7 @@ func main() {
 				if pan {
 					continue // the constructors refuse this combination
 				}
-				c := &checker{res: &res, spec: spec}
+				c := &checker{res: &res, spec: spec, tier: tier}
 				what := "object"
 				if g.Struct != "" {
 					what = "struct-mapped object"
@@ -425,7 +446,7 @@ func main() {
 					ukit.Link(n)
 				}
 			})
-			c := &checker{res: &res, spec: r.Spec}
+			c := &checker{res: &res, spec: r.Spec, tier: "thorough"}
 			if r.Spec.Kind == ukit.KObject {
 				// rebuild the generator inputs from the spec: types by property kind
 				g := objGen{N: len(r.Spec.Props), Struct: r.Spec.Struct}
